@@ -79,6 +79,16 @@ type typedTarget struct {
 	Nums   []int
 	In     zInner
 	M      map[string]zInner
+	// struct types reachable through containers of pointers only (registering the owner covers them too)
+	Ptrs []*zLeafA
+	PM   map[string]*zLeafB
+}
+
+type zLeafA struct{ V int }
+
+type zLeafB struct {
+	W string
+	A *zLeafA
 }
 
 func typedSource(a, b int) map[string]any {
@@ -101,6 +111,8 @@ func typedSource(a, b int) map[string]any {
 		"Nested": map[string]map[string]int{"x": {"a": a}, "y": {"b": b, "c": a + b}},
 		"In":     map[string]any{"S": "s", "N": a},
 		"M":      map[string]map[string]any{"k": {"S": "t", "N": b}, "j": {"N": a}},
+		"Ptrs":   []any{map[string]any{"V": a}, nil, map[string]any{"V": b}},
+		"PM":     map[string]any{"p": map[string]any{"W": fmt.Sprint("w", a), "A": map[string]any{"V": b}}, "q": nil},
 	}
 }
 
